@@ -43,7 +43,10 @@ theorem fillWly_sound' (r : Rule) (p : Inst) (n : Nat) (l : List Inst) (hr : WfR
     have hy2 : p.y ≤ 2099 := by
       have := year_le_of_not_lt _ p (inR_of_wf hp) hge
       exact Nat.le_trans this hty
-    exact ⟨wly_inst r p nti hr hp hs hy2 hv0 hl0 hback j o ty tm td ho (hcw.comp o _ _ _ hc) hty hbit t ht, hty, hge⟩
+    have htm : tm ≤ 12 := by
+      have hd0 := hv0.2.2.1
+      exact ((hcw.comp o _ _ _ hc).props hv0.1 hv0.2.1 (by omega)).1.2.1
+    exact ⟨wly_inst r p nti hr hp hs hy2 hv0 hl0 hback j o ty tm td ho (hcw.comp o _ _ _ hc) (by omega) hbit t ht, hty, hge⟩
 
 theorem fillWly_sound (r : Rule) (p : Inst) (n : Nat) (l : List Inst) (hr : WfRule r) (hp : WfInst p)
     (hs : SeedOk r p) (_hn : n ≤ 64) (hy : 1901 ≤ p.y) (h : fillWly r p n = some l) :
@@ -70,7 +73,8 @@ theorem fillWly_complete (r : Rule) (p : Inst) (n : Nat) (l : List Inst) (hr : W
     rw [hl] at hl2
     cases hl2
     have hacc := hacc hen
-    obtain ⟨k, o, ho, hc, hmon, ix, hix⟩ := wly_inst_conv r p nti hr hp hs hy2 hv0 hl0 (by omega) hback x hx hxy
+    obtain ⟨k, o, ho, hc, hmon, -, ix, hix⟩ := wly_inst_conv r p nti hr hp hs hy2 hv0 hl0 (by omega) hback x hx
+      (by have := hx.1.2.1; omega)
     have hskip : ∀ y m d, VD y m d → Carry y m (d + o) x.y x.m x.d →
         wlySkip (mkCtx r p nti (wlyIncs r)) (wlyNset (mkCtx r p nti (wlyIncs r)) m d (getNdom y m))
           (ndAt (mkCtx r p nti (wlyIncs r)) y m (offs 8 (mkCtx r p nti (wlyIncs r)).wdIncs d) (d + o)) ix = false := by
